@@ -1225,8 +1225,14 @@ func (e *Engine) rangeOp(st *State, f *Frame, ins *ssa.Range) bool {
 					continue
 				}
 				if en.Present != e.tt.True {
-					e.cutPath(st, "range over map with symbolic membership", ins)
-					return false
+					// decide membership under the path condition
+					if !e.feasible(st, en.Present) {
+						continue
+					}
+					if e.feasible(st, e.tt.BNot(en.Present)) {
+						e.cutPath(st, "range over map with symbolic membership", ins)
+						return false
+					}
 				}
 				it.keys = append(it.keys, en.Key)
 				it.vals = append(it.vals, en.Val)
